@@ -56,6 +56,20 @@ CHECKS = {
                 "outside its input class (>=2 retained records). The on-disk hand-off is covered by C15's framing check only.",
         "design": "3 C08",
     },
+    "C02": {
+        "text": "Bounded symbolic verification by ONE INDUCTIVE STEP from an arbitrary counter state: accumulated values are fresh "
+                "symbolic reals, read counters fresh symbolic ints, the read's assignment type a symbolic enum member and its feature "
+                "set chosen by the solver (<=3 features, <=3 matches); the real AssignedFeatureCounter.add_read_info / add_read_info_raw / "
+                "dump / convert_counts_to_tpm, GraphBasedModelConstructor.forward_counts, merge_counts and DatasetProcessor.merge_assignments / "
+                "merge_transcript_models are executed and z3 proves post = pre + documented weight for all 5 strategies x gene/transcript, "
+                "total weight per read in [0,1], the confirmation rule, the stats lines, TPM = count*10^6/total (sum 10^6) and merged "
+                "stats = sums with __not_aligned = unaligned reads. Because the pre-state is arbitrary the step covers any number of reads. "
+                "Per-chromosome file naming is checked by CrossHair on symbolic label/chromosome strings (<=3/<=2 chars).",
+        "note": "Trusted: z3, symx proxies, sentinel-token parsing of the printed tables, CrossHair for the string kernel (its verdict is "
+                "'confirmed' or, if the budget runs out, 'searched, not discharged'). Exact rational arithmetic: 2-/6-decimal rounding "
+                "of printed values, pandas combine_counts and file concatenation order are outside the claim.",
+        "design": "3 C02",
+    },
 }
 
 NOT_BUILT = "check not built yet (build in progress, see DESIGN.md section 5); no claim is made"
